@@ -4,8 +4,8 @@ from gens import *
 LEVEL = 'model_checking'
 
 def draws(rng, k, fail=()):
-    # 0 = the source fails, 1 = healthy, 2 = interrupted once (EINTR) and then healthy (only the sysrng flavour tells 2 from 1)
-    return ','.join('%d:%s' % (0 if i in fail else (2 if i % 5 == 3 else 1), hx(pattern(rng, 32, 'rand'))) for i in range(k))
+    # 0 = the source fails, 1 = healthy, 2 / 3 = EINTR / EAGAIN once and then healthy (only the sysrng flavour tells them from 1)
+    return ','.join('%d:%s' % (0 if i in fail else (2 if i % 5 == 3 else (3 if i % 5 == 1 else 1)), hx(pattern(rng, 32, 'rand'))) for i in range(k))
 
 def gen(c):
     rng = c.rng; th = c.tier == 'thorough'
